@@ -44,10 +44,10 @@ STALE = {
 def gen_case(seed, idx):
     rng = seeds.stream(seed, PROP, idx, "world")
     w = W.gen_modgraph(rng, {"max_mods": 5, "min_mods": 2, "max_ents": 4, "dup_names": True,
-                             "unknown_uses": True, "extras": True})
+                             "unknown_uses": True, "extras": True, "families": True, "dup_modules": True})
     lay = rng.choice(["normal"] * 10 + ["srcdot_file", "srcdot_cli"])
     opts = {"project": "World %d" % idx, "preprocess": False, "parallel": 0, "print_creation_date": False,
-            "search": rng.random() < 0.6, "graph": rng.random() < 0.5, "incl_src": rng.random() < 0.7,
+            "search": rng.random() < 0.6, "graph": rng.random() < 0.6, "incl_src": rng.random() < 0.7,
             "sort": rng.choice(SORTS), "proc_internals": rng.random() < 0.4, "hide_undoc": rng.random() < 0.2,
             "externalize": rng.random() < 0.3, "warn": rng.random() < 0.2}
     opts["display"] = rng.choice([["public", "protected"], ["public", "private", "protected"], ["public"], ["private"]])
@@ -67,7 +67,7 @@ def gen_case(seed, idx):
         opts["show_proc_parent"] = rng.random() < 0.3
     if rng.random() < 0.3:
         opts["max_frontpage_items"] = rng.randint(1, 4)
-    case = {"world": w, "options": opts, "layout": lay, "pages": rng.random() < 0.35 and lay == "normal",
+    case = {"world": w, "options": opts, "layout": lay, "exclude": rng.random() < 0.3, "pages": rng.random() < 0.35 and lay == "normal",
             "media": rng.random() < 0.25 and lay == "normal", "extra_ft": rng.random() < 0.2, "idx": idx}
     return case
 
@@ -96,6 +96,10 @@ def build_files(case, seed):
         else:
             argv += ["-o", "out"]
         out = "p/out"
+    if case.get("exclude"):
+        base = "p/src/" if lay == "normal" else "p/"
+        files[base + "skipme.f90"] = "module skipme\n  !! excluded by the project file\nend module skipme\n"
+        opts["exclude"] = ("src/" if lay == "normal" else "") + "skipme.f90"
     if case.get("extra_ft"):
         opts["extra_filetypes"] = "inc !"
         base = "p/src/" if lay == "normal" else "p/"
@@ -227,7 +231,7 @@ def outcome_key(r):
     return "exception:" + o.get("cls", "?")
 
 
-IDENT_RE = re.compile(r"\b(?:[a-z]*e\d+[a-z]\d+x?|[a-z]*m\d+|[a-z]*p\d+(?:v\d+)?|[a-z]*x\d+|[a-z]*loc\d+|[a-z]*tracer\d+q|sm2?_\w+|bd\d+|host\d*|nlp)\b", re.I)
+IDENT_RE = re.compile(r"\b(?:[a-z]*e\d+[a-z]\d+x?|[a-z]*m\d+|[a-z]*p\d+(?:v\d+)?|[a-z]*x\d+|[a-z]*loc\d+|[a-z]*tracer\d+q|sm2?_\w+|bd\d+|host\d*|nlp|World \d+)\b", re.I)
 
 
 def path_class(p):
@@ -417,7 +421,7 @@ def case_candidates(case):
         c["world"] = w
         if w["mods"]:
             yield desc, c
-    for k in ("pages", "media", "extra_ft"):
+    for k in ("pages", "media", "extra_ft", "exclude"):
         if case.get(k):
             c = copy.deepcopy(case)
             c[k] = False
@@ -537,7 +541,7 @@ def main():
                     rep.violation(sig, what + " [regression corpus %s]" % fn,
                                   {"case": case["case"], "variant": var, "seed_used": case["seed_used"], "observed": detail})
         rep.cov["fixed_regressions_passed"] = n_corpus
-        n_worlds = args.worlds or (40 if args.tier == "quick" else 1500)
+        n_worlds = args.worlds or (36 if args.tier == "quick" else 1500)
         budget = args.budget or (80 if args.tier == "quick" else 1500)
         tasks = [(args.seed, i, args.tier, batch) for i in range(n_worlds)]
         to_min = []
